@@ -17,6 +17,8 @@ Oracle clauses (violation key = C14:<clause>:<site or field>):
   repack:<kind>@<offset>                 pack(parse(b)) != b; <kind> is the innermost header whose bytes differ
   length:<where>.<field>, checksum:<where>   emitted length / checksum field != reference
   checksum-fn:<class>                    packet_utils.checksum() != RFC 1071 on a bare buffer
+  subedit-lost / subedit-corrupts:<kind>.<attr>[<Class>].<attr>   one attribute of one element of a list / dict held by a
+                                         parsed header modified in place: lost on pack / bytes differ from a fresh build
   corpus-repack:<header>                 a valid frame assembled without the library: pack(parse(frame)) != frame
   history:<Class>.<attr> | history:repack | ...   parsing a corpus frame B after a frame A differs from parsing B in a fresh process
   edit-lost:<kind>.<attr>                bytes -> parse -> assign the attribute -> pack -> parse: the new value is gone
@@ -402,6 +404,149 @@ def check_edit (P, st, dev, plen):
   return c
 
 
+# ---------------------------------------------------------------------------------------------
+# edit after parse, sub-objects:  modify ONE attribute of ONE element of a list / dict held by a header
+# (RIP entries, DHCP option objects, LLDP TLVs, TCP options, IGMPv3 group records, IPv6 extension headers,
+#  ND options, DNS questions / records) IN PLACE on the parsed packet
+# ---------------------------------------------------------------------------------------------
+NOTHING = object()
+
+
+def is_addr (v):
+  return hasattr(v, "_value") and hasattr(v, "raw") and not hasattr(v, "pack")
+
+
+def mutate (v, depth=0):
+  """Another value of the same type and size (lowest bit of the last / first unit flipped), or NOTHING."""
+  if isinstance(v, bool): return not v
+  if isinstance(v, int): return v ^ 1
+  if isinstance(v, bytes): return (v[:-1] + bytes([v[-1] ^ 1])) if v else NOTHING
+  if isinstance(v, str): return (v[:-1] + ("b" if v[-1] != "b" else "a")) if v else NOTHING
+  if is_addr(v):
+    raw = v.raw[:-1] + bytes([v.raw[-1] ^ 1])
+    return type(v)(raw, raw=True) if type(v).__name__ == "IPAddr6" else type(v)(raw)
+  if isinstance(v, (list, tuple)) and v and depth < 3:
+    m = mutate(v[-1], depth + 1)
+    if m is NOTHING: return NOTHING
+    return type(v)(list(v[:-1]) + [m])
+  return NOTHING
+
+
+def sub_objects (layer):
+  """(attribute, key, element) for every object held in a list / tuple / dict attribute of a header."""
+  for a, v in sorted(vars(layer).items()):
+    if a in NOT_FIELDS: continue
+    if isinstance(v, dict): items = sorted(v.items(), key=lambda kv: repr(kv[0]))
+    elif isinstance(v, (list, tuple)): items = list(enumerate(v))
+    else: continue
+    for k, e in items:
+      if hasattr(e, "__dict__") and not is_addr(e) and not isinstance(e, type):
+        yield a, k, e
+
+
+def _chain_layer (P, st, frame, li):
+  """Parse frame and return (outermost, header number li) or (outermost, None)."""
+  p = P.pkt.ethernet(raw=frame)
+  cur = p
+  for i, (k, _) in enumerate(st["layers"][:li + 1]):
+    if not isinstance(cur, K.KINDS[k]["cls"](P)) or not getattr(cur, "parsed", False): return p, None
+    if i < li: cur = cur.next
+  return p, cur
+
+
+def _element (layer, a, k):
+  v = getattr(layer, a, None)
+  try: return v[k]
+  except Exception: return None
+
+
+def subedit_points (P, st, devs, plen):
+  """Every (layer, attribute, key, element class, element attribute) that can be modified on the parsed packet."""
+  if check_case(P, st, devs, plen).viols: return []
+  b0 = K.build(P, st, devs, plen)[0].pack()
+  out = []
+  cur = P.pkt.ethernet(raw=b0)
+  for li, (k, _) in enumerate(st["layers"]):
+    if not isinstance(cur, K.KINDS[k]["cls"](P)): break
+    for a, key, e in sub_objects(cur):
+      for sa in sorted(vars(e)):
+        if sa in NOT_FIELDS: continue
+        if mutate(getattr(e, sa)) is not NOTHING:
+          out.append((li, a, key, type(e).__name__, sa))
+    cur = cur.next
+  return out
+
+
+def check_subedit (P, st, devs, plen, point):
+  """One in-place edit of a sub-object.  The same assignment is made (i) on the element of a packet assembled
+  from scratch, which gives the expected bytes - the case only applies if those bytes parse back with the new
+  value and re-encode to themselves, i.e. the new value is representable - and (ii) on the element of the PARSED
+  packet; packing (ii) must give the bytes of (i).
+     subedit-lost:<kind>.<attr>[<Class>].<attr>      the new value is not in the re-parsed packet
+     subedit-corrupts:<kind>.<attr>[<Class>].<attr>  it is, but the bytes differ from the from-scratch packet
+  Returns a Case or None (not applicable)."""
+  li, a, key, cname, sa = point
+  kind_li = st["layers"][li][0]
+  label = "%s.%s[%s].%s" % (kind_li, a, cname, sa)
+  c = Case()
+  try:
+    top0, objs0, _, _ = K.build(P, st, devs, plen); b0 = top0.pack()
+    p0, layer0 = _chain_layer(P, st, b0, li)
+    c.calls += 3
+    if layer0 is None: return None
+    e0 = _element(layer0, a, key)
+    if e0 is None or type(e0).__name__ != cname or not hasattr(e0, sa): return None
+    newv = mutate(getattr(e0, sa))
+    if newv is NOTHING: return None
+    # (i) from scratch
+    topf, objsf, _, _ = K.build(P, st, devs, plen)
+    ef = _element(objsf[li], a, key)
+    if ef is None or type(ef).__name__ != cname or not hasattr(ef, sa): return None
+    setattr(ef, sa, newv)
+    bf = topf.pack()
+    pf, layerf = _chain_layer(P, st, bf, li)
+    c.calls += 4
+    if layerf is None: return None
+    epf = _element(layerf, a, key)
+    if epf is None or canon(getattr(epf, sa, MISSING)) != canon(newv) or pf.pack() != bf or bf == b0: return None
+  except Exception:
+    return None
+  # (ii) in place on the parsed packet
+  setattr(e0, sa, newv)
+  try:
+    c.calls += 1
+    be = p0.pack()
+  except Exception as e:
+    _raised(c, e, "pack() after assigning %s of a parsed packet" % label); return c
+  c.frame = be
+  if be == bf: return c
+  try:
+    c.calls += 1
+    pe, layere = _chain_layer(P, st, be, li)
+  except Exception as e:
+    _raised(c, e, "parsing the bytes packed after assigning %s" % label); return c
+  epe = _element(layere, a, key) if layere is not None else None
+  got = getattr(epe, sa, MISSING) if epe is not None else MISSING
+  if canon(got) != canon(newv):
+    c.bad("subedit-lost:" + label, "parsed a packet, set %s.%s[%r].%s = %s in place, packed and parsed again: it reads back as %s%s"
+          % (kind_li, a, key, sa, short(canon(newv), 70), short(canon(got), 70), " (the bytes did not change at all)" if be == b0 else ""))
+  else:
+    off = first_diff(be, bf)
+    c.bad("subedit-corrupts:" + label, "after setting %s.%s[%r].%s in place on the parsed packet the new frame differs from the one "
+          "assembled from scratch with the same value (%d vs %d bytes, first difference at offset %d: %s vs %s)"
+          % (kind_li, a, key, sa, len(be), len(bf), off, be[max(0, off - 2):off + 6].hex(), bf[max(0, off - 2):off + 6].hex()))
+  return c
+
+
+def subedit_sources (st):
+  """Base vector plus every single deviation of a list / dict valued field (each option-list / TLV-list shape)."""
+  out = [()]
+  for li, f, vals in K.domain(st):
+    if isinstance(vals[0], (list, dict)):
+      out.extend(((li, f, ai),) for ai in range(1, len(vals)))
+  return out
+
+
 def edit_plens (st, quick):
   plens = st["plens"]
   pick = [n for n in ((18,) if quick else (0, 1, 18)) if n in plens]
@@ -677,9 +822,37 @@ def _run_edits (rep, name):
                       dict(kind="edit", stack=name, dev=list(dev), plen=plen))
 
 
+def _run_subedits (rep, name):
+  P = K.pox_namespace()
+  st = K.STACKS[name]
+  plen = edit_plens(st, True)[0]
+  for devs in subedit_sources(st):
+    try:
+      points = subedit_points(P, st, devs, plen)
+    except Exception:
+      rep.error("sub-object edit points %s %r: %s" % (name, devs, traceback.format_exc(limit=4))); continue
+    for point in points:
+      try:
+        c = check_subedit(P, st, devs, plen, point)
+      except Exception:
+        rep.error("sub-object edit %s %r %r: %s" % (name, devs, point, traceback.format_exc(limit=4))); continue
+      if c is None:
+        rep.extra["subedit_cases_not_applicable"] = rep.extra.get("subedit_cases_not_applicable", 0) + 1
+        continue
+      rep.evaluations += 1
+      rep.transitions += c.calls
+      rep.extra["subedit_cases"] = rep.extra.get("subedit_cases", 0) + 1
+      rep.outcome(("subedit", [k for k, _ in c.viols], digest(c.frame) if c.frame is not None else None))
+      for k, what in c.viols:
+        rep.violation("%s:%s" % (PID, k), "[%s] %s" % (name, what),
+                      dict(kind="subedit", stack=name, devs=[list(d) for d in devs], plen=plen, point=list(point)))
+
+
 def _run_part (rep, name, part):
   if part == "edit":
     return _run_edits(rep, name)
+  if part == "subedit":
+    return _run_subedits(rep, name)
   P = K.pox_namespace()
   st = K.STACKS[name]
   cases = cases_for(st, _worker.quick, part)
@@ -791,6 +964,7 @@ def run (cfg):
     nd1 = len(K.deviations(K.STACKS[name]))
     parts.extend(((name, i), estimate(K.STACKS[name], quick, i)) for i in range(-1, nd1))
     parts.append(((name, "edit"), 6 * nd1 * len(edit_plens(K.STACKS[name], quick))))
+    parts.append(((name, "subedit"), 400 * (len(subedit_sources(K.STACKS[name])) - 1)))
   total = sum(n for _, n in parts)
   target = max(1500, total // (max(1, cfg.workers) * 12))
   cur, size = [], 0
@@ -818,7 +992,11 @@ def run (cfg):
               "checksum fields with refs/rfc1071 over raw offsets.  Edit-after-parse phase: per stack, the base vector x payload %s is "
               "packed and parsed, then every single deviation is applied to the PARSED chain by attribute assignment (one field of one "
               "header, every header in turn), packed, parsed again and compared field by field with the same packet assembled from "
-              "scratch, and its lengths/checksums verified.  Corpus phase: pack(parse(f)) == f for every corpus frame f (families in pktcorpus.CORPUS_NOT_CANONICAL: the "
+              "scratch, and its lengths/checksums verified.  Sub-object edits: per stack, base vector and every option/TLV/entry-list shape: on the parsed packet ONE attribute of ONE "
+              "element of every list/dict held by a header (RIP entries, DHCP options, LLDP TLVs, TCP options, IGMPv3 records, ND options, "
+              "IPv6 extension headers) is changed in place (lowest bit flipped), packed, and compared with the same assignment made on a "
+              "packet assembled from scratch (cases whose from-scratch packet does not carry the new value are not applicable).  "
+              "Corpus phase: pack(parse(f)) == f for every corpus frame f (families in pktcorpus.CORPUS_NOT_CANONICAL: the "
               "re-encoding is a fixpoint).  History phase: for every ordered pair (A, B) of the %d corpus frames (A == B included), "
               "in a fresh process per A: parse A, parse B; every attribute of B's parsed chain and its re-encoding must equal B parsed "
               "first thing in a fresh process. distinct = distinct (violated clauses, emitted frame, parsed chain)"
@@ -867,6 +1045,14 @@ def replay (cfg, data):
     head = "fresh process; for every corpus frame B up to %s: parse %s, parse B, compare B with B parsed first thing in a fresh process" % (data["b"], data["a"])
     return bool(r.violations), head + "\n" + ("\n".join(text) or "every B parsed exactly as in isolation")
   st = K.STACKS[data["stack"]]
+  if data.get("kind") == "subedit":
+    devs = tuple(tuple(d) for d in data["devs"])
+    c = check_subedit(P, st, devs, data["plen"], tuple(data["point"]))
+    li, a, key, cname, sa = data["point"]
+    head = ("stack %s, deviations %r, payload %d: packed and parsed; on the parsed packet layer %d (%s) .%s[%r] (%s) .%s modified in place; "
+            "packed and compared with the same packet assembled from scratch" % (st["name"], list(devs), data["plen"], li, st["layers"][li][0], a, key, cname, sa))
+    if c is None: return False, head + "\nnot applicable"
+    return bool(c.viols), head + "\n" + "\n".join("VIOLATED %s:%s: %s" % (PID, k, w) for k, w in c.viols)
   if data.get("kind") == "edit":
     dev = tuple(data["dev"])
     c = check_edit(P, st, dev, data["plen"])
